@@ -687,6 +687,116 @@ theorem mss_change_rescales_within_one_byte {e : FEnv} {ε : Rat} (R : Rounding 
   simp only [Nat.min_def]
   constructor <;> (split <;> split <;> omega)
 
+/-! ### Slow-start history: two segments plus everything acknowledged (clause of C05 that lives in the controller) -/
+
+/-- `window()` before the clamp to the peer's advertised bytes. -/
+def unclamped (e : FEnv) (c : Cubic) : Nat := XR.toUsize (XR.mul e.rnd (XR.max c.cwnd Cubic.two) (c.mssF e))
+
+theorem window_le_unclamped (e : FEnv) (c : Cubic) : c.window e ≤ unclamped e c := by
+  simp only [Cubic.window, unclamped, Nat.min_def]; split <;> omega
+
+/-- One slow-start ACK in exact arithmetic raises the unclamped window by at most the bytes acknowledged,
+keeps `cwnd` finite and at least 2, and touches nothing else. -/
+theorem ack_unclamped_exact (cb : Rat → Rat) (c : Cubic) (q r : Rat) (hq : c.cwnd = .fin q) (hq2 : 2 ≤ q)
+    (hr : c.rwnd = .fin r) (hm : 0 < c.mss) (hss : c.ssthresh = .pinf) (now len rtt : Nat) :
+    let c' := c.onAck (exact cb) now len rtt
+    unclamped (exact cb) c' ≤ unclamped (exact cb) c + len ∧ (∃ q', c'.cwnd = .fin q' ∧ 2 ≤ q') ∧
+      c'.ssthresh = c.ssthresh ∧ c'.rwnd = c.rwnd ∧ c'.mss = c.mss ∧ c'.rwndBytes = c.rwndBytes := by
+  have hmq : (c.mss : Rat) ≠ 0 := by exact_mod_cast (Nat.pos_iff_ne_zero.mp hm)
+  have hmp : (0 : Rat) < c.mss := by exact_mod_cast hm
+  simp only [Cubic.onAck, Cubic.onAckWith]
+  split
+  · exact ⟨by omega, ⟨q, hq, hq2⟩, rfl, rfl, rfl, rfl⟩
+  split
+  · exact ⟨by omega, ⟨q, hq, hq2⟩, rfl, rfl, rfl, rfl⟩
+  have hlt : XR.lt c.cwnd c.ssthresh = true := by simp [hq, hss, XR.lt]
+  simp only [hlt, if_true]
+  simp only [hq, hr, exact, Cubic.mssF, XR.ofNat, id, XR.div, hmq, if_false, XR.add, unclamped]
+  have hcl : ∃ y, XR.max (XR.min (.fin (q + (len : Rat) / c.mss)) (.fin r)) Cubic.two = .fin y ∧ y ≤ max (q + (len : Rat) / c.mss) 2 ∧ 2 ≤ y := by
+    by_cases h : r < q + (len : Rat) / c.mss
+    · refine ⟨max r 2, by simp [XR.min, XR.lt, h, max_fin_two], max_le_max (le_of_lt h) (le_refl _), le_max_right _ _⟩
+    · refine ⟨max (q + (len : Rat) / c.mss) 2, by simp [XR.min, XR.lt, h, max_fin_two], le_refl _, le_max_right _ _⟩
+  obtain ⟨y, hy, hyle, hy2⟩ := hcl
+  refine ⟨?_, ⟨y, hy, hy2⟩, trivial, trivial, trivial, trivial⟩
+  rw [hy, max_fin_two, max_fin_two]
+  simp only [XR.mul, id]
+  have h1 : max y 2 * (c.mss : Rat) ≤ max q 2 * c.mss + len := by
+    have : max y 2 ≤ max q 2 + (len : Rat) / c.mss := by
+      have hl : (0 : Rat) ≤ (len : Rat) / c.mss := by positivity
+      apply max_le (le_trans hyle (max_le (by linarith [le_max_left q 2]) (by linarith [le_max_right q 2])))
+      linarith [le_max_right q 2]
+    calc max y 2 * (c.mss : Rat) ≤ (max q 2 + (len : Rat) / c.mss) * c.mss := mul_le_mul_of_nonneg_right this (le_of_lt hmp)
+      _ = max q 2 * c.mss + len := by field_simp
+  exact le_trans (toUsize_fin_mono h1) (toUsize_fin_add_nat (by positivity) len)
+
+/-- Events that are not a loss signal: acknowledgements and window updates. -/
+def Ev.lossFree : Ev → Prop
+  | .ack .. => True
+  | .setRwnd _ => True
+  | _ => False
+
+def acked : List Ev → Nat
+  | [] => 0
+  | .ack _ len _ :: es => len + acked es
+  | _ :: es => acked es
+
+structure SS (cb : Rat → Rat) (mss : Nat) (c : Cubic) (budget : Nat) : Prop where
+  mss : c.mss = mss
+  ss : c.ssthresh = .pinf
+  cw : ∃ q, c.cwnd = .fin q ∧ 2 ≤ q
+  rw : ∃ r, c.rwnd = .fin r
+  le : unclamped (exact cb) c ≤ budget
+
+theorem ss_run (cb : Rat → Rat) (mss : Nat) (hm : 0 < mss) (evs : List Ev) (hev : ∀ ev ∈ evs, ev.lossFree) :
+    ∀ (c : Cubic) (b : Nat), SS cb mss c b → SS cb mss (run (exact cb) c evs) (b + acked evs) := by
+  induction evs with
+  | nil => intro c b h; simpa [run, acked] using h
+  | cons ev es ih =>
+    intro c b h
+    have hes : ∀ ev ∈ es, ev.lossFree := fun x hx => hev x (List.mem_cons_of_mem _ hx)
+    have h1 := hev ev List.mem_cons_self
+    obtain ⟨q, hq, hq2⟩ := h.cw
+    obtain ⟨r, hr⟩ := h.rw
+    have hmq : (mss : Rat) ≠ 0 := by exact_mod_cast (Nat.pos_iff_ne_zero.mp hm)
+    cases ev with
+    | ack now len rtt =>
+      have k0 := ack_unclamped_exact cb c q r hq hq2 hr (by rw [h.mss]; exact hm) h.ss now len rtt
+      have : SS cb mss (c.onAck (exact cb) now len rtt) (b + len) :=
+        ⟨by rw [k0.2.2.2.2.1, h.mss], by rw [k0.2.2.1, h.ss], k0.2.1, ⟨r, by rw [k0.2.2.2.1, hr]⟩,
+          le_trans k0.1 (Nat.add_le_add_right h.le _)⟩
+      have := ih hes _ _ this
+      simpa [run, step, acked, Nat.add_assoc] using this
+    | setRwnd w =>
+      have : SS cb mss (c.setRemoteWindow (exact cb) w) b :=
+        ⟨h.mss, h.ss, ⟨q, hq, hq2⟩,
+          ⟨(w : Rat) / mss, by simp [Cubic.setRemoteWindow, exact, Cubic.mssF, XR.ofNat, XR.div, h.mss, hmq]⟩, h.le⟩
+      have := ih hes _ _ this
+      simpa [run, step, acked] using this
+    | rto => exact absurd h1 (by simp [Ev.lossFree])
+    | enter _ => exact absurd h1 (by simp [Ev.lossFree])
+    | recovered _ _ => exact absurd h1 (by simp [Ev.lossFree])
+    | setMss _ => exact absurd h1 (by simp [Ev.lossFree])
+
+/-- **C05/C15, slow-start history (exact arithmetic).** From a fresh controller, after ANY sequence of
+acknowledgements and window updates with no loss signal in it, `window()` is at most two segments plus the
+bytes acknowledged so far. -/
+theorem slow_start_history_exact (cb : Rat → Rat) (now mss : Nat) (hm : 0 < mss) (hu : 2 * mss ≤ U64MAX)
+    (evs : List Ev) (hev : ∀ ev ∈ evs, ev.lossFree) :
+    (run (exact cb) (Cubic.new now mss) evs).window (exact cb) ≤ 2 * mss + acked evs := by
+  have h0 : SS cb mss (Cubic.new now mss) (2 * mss) := by
+    refine ⟨rfl, rfl, ⟨2, by simp [Cubic.new, Gen.CUBIC_INITIAL_CWND], le_refl _⟩, ⟨0, rfl⟩, ?_⟩
+    simp only [unclamped, Cubic.new, Gen.CUBIC_INITIAL_CWND, exact, Cubic.mssF, XR.ofNat, id]
+    have : XR.max (.fin ((2 : Nat) : Rat)) Cubic.two = .fin 2 := by
+      rw [max_fin_two]; norm_num
+    rw [this]
+    simp only [XR.mul, id]
+    have := toUsize_fin_nat (2 * mss) hu
+    push_cast at this
+    rw [this]
+  exact le_trans (window_le_unclamped _ _) (ss_run cb mss hm evs hev _ _ h0).le
+
+example : acked [.setRwnd 1000000, .ack 0 1000 5, .ack 1 400 5] = 1400 := rfl
+
 /-! ### Non-vacuity -/
 
 example : RoundErr id 0 := ⟨le_refl _, fun x => by simp⟩
